@@ -357,6 +357,13 @@ Qed.
 Lemma c20_wf_npv_inplace : forall st cs vals, c20_wf st -> c20_wf (fst (c20_npv_inplace st cs vals)).
 Proof. intros. unfold c20_npv_inplace. simpl. apply c20_wf_set_heap; auto. apply c20_write_all_length. Qed.
 
+Lemma c20_wf_setslice : forall st o a b c vals, c20_wf st -> c20_wf (fst (c20_setslice st o a b c vals)).
+Proof.
+  intros. unfold c20_setslice. destruct (c20_slice_indices (c20_size o) a b c); simpl; auto.
+  repeat match goal with |- context [if ?x then _ else _] => destruct x end;
+    try (apply c20_wf_npv_inplace; assumption); simpl; assumption.
+Qed.
+
 Lemma P_step_wf : forall cfg st op, c20_wf st -> c20_wf (fst (c20_step cfg st op)).
 Proof.
   intros cfg st op Hwf.
@@ -368,6 +375,7 @@ Proof.
       | |- context [c20_on_any] => apply c20_wf_on_any; [assumption | intros o Ho Hok]
       end;
     try (apply c20_wf_with_operand; [assumption | intros y]);
+    try (apply c20_wf_setslice; assumption);
     try match goal with
       | |- context [c20_slice_indices ?n ?a ?b ?c] =>
           let E := fresh "E" in
@@ -903,4 +911,43 @@ Proof.
   - apply P_strided_arith. intros k Hk. specialize (Hr k Hk). lia.
   - apply map_ext_in. intros k Hk. apply in_seq in Hk. specialize (Hr k ltac:(lia)).
     rewrite seq_nth by lia. lia.
+Qed.
+
+(* ------------------------------------------------------------------ API-coverage round *)
+(* v[a:b:c] = vals: exactly the cells of the slice receive the values (one value is broadcast), as an in-place update of
+   the view v[a:b:c]; a length mismatch is a ValueError and changes nothing *)
+Lemma P_setslice : forall cfg st r o a b c idx vals,
+  nth_error (c20_regs st) r = Some o -> c20_slice_indices (c20_size o) a b c = C20_Ok idx ->
+  let view := {| c20_k := C20_Arr; c20_cells := map (fun j => nth j (c20_cells o) 0) idx |} in
+  (length vals = length idx -> length vals <> 1 -> c20_step cfg st (C20_SetSlice r a b c vals) = c20_inplace st view vals) /\
+  (forall x, c20_step cfg st (C20_SetSlice r a b c [x]) = c20_inplace st view (repeat x (length idx))) /\
+  (length vals <> length idx -> length vals <> 1 -> c20_step cfg st (C20_SetSlice r a b c vals) = (st, C20_ObsExc C20_ValueError)).
+Proof.
+  intros cfg st r o a b c idx vals E Ei view. simpl. unfold c20_on_any, c20_setslice. rewrite E, Ei. rewrite map_length.
+  split; [|split].
+  - intros H1 H2. destruct (Nat.eqb_spec (length vals) 1); [contradiction|].
+    destruct (Nat.eqb_spec (length vals) (length idx)); [reflexivity|contradiction].
+  - intros x. reflexivity.
+  - intros H1 H2. destruct (Nat.eqb_spec (length vals) 1); [contradiction|].
+    destruct (Nat.eqb_spec (length vals) (length idx)); [contradiction|reflexivity].
+Qed.
+
+Lemma P_setslice_view_ok : forall st o a b c idx, c20_obj_ok (c20_H st) o ->
+  c20_slice_indices (c20_size o) a b c = C20_Ok idx ->
+  c20_obj_ok (c20_H st) {| c20_k := C20_Arr; c20_cells := map (fun j => nth j (c20_cells o) 0) idx |}.
+Proof.
+  intros st o a b c idx Hok Ei. apply P_slice_range in Ei as [E1 E2].
+  destruct (c20_slice_cells_ok _ _ _ Hok E1 E2). split; assumption.
+Qed.
+
+Lemma P_api_misc : forall cfg st r o, nth_error (c20_regs st) r = Some o -> c20_k o = C20_Vec ->
+  (forall vals, c20_step cfg st (C20_CopyArgs r vals) = c20_push_new st C20_Vec (c20_spec_construct (c20_size o) vals)) /\
+  (c20_size o = 1 -> c20_step cfg st (C20_Float r) = (st, C20_ObsScalar (nth 0 (c20_vals st o) 0%Q))) /\
+  (forall l, c20_step cfg st (C20_NeL r l) = (st, C20_ObsBool (negb (c20_veq (c20_vals st o) (c20_spec_construct (c20_size o) l))))) /\
+  (forall l, c20_step cfg st (C20_ISubL r l) = c20_inplace st o (c20_vsub (c20_vals st o) (c20_spec_construct (c20_size o) l))) /\
+  (forall l, c20_step cfg st (C20_AssignL r l) = c20_inplace st o (c20_spec_construct (c20_size o) l)) /\
+  c20_step cfg st C20_NewBadBuffer = (st, C20_ObsExc C20_ValueError).
+Proof.
+  intros cfg st r o E Hk. repeat split; intros; simpl; unfold c20_on_vec; rewrite ?E, ?Hk, ?P_construct; try reflexivity.
+  rewrite H. reflexivity.
 Qed.
